@@ -238,6 +238,9 @@ var checks = map[string]*check{
 			{Name: "silent-death", Kind: "explore", Scen: "crash_plugin", Inst: inst("silent", "silent"), Depths: depths([]int{1}, []int{1, 2}), Budget: budget(3*time.Minute, 10*time.Minute)},
 			// a real plugin process killed from outside after 0.2 .. 26 s of uptime, seen by the launching client and by a
 			// client reattached to the same process (cmdrunner's pid polling): detection time, calls, Ping, Kill
+			// a stopped plugin, the host announcing brokered listeners until one announcement waits inside the broker's control
+			// stream (no flow-control window left), then the process dies
+			{Name: "wedged-then-dead", Kind: "explore", Scen: "wedged_plugin", Depths: depths([]int{0, 1}, []int{0, 1, 2}), Budget: budget(3*time.Minute, 15*time.Minute)},
 			{Name: "real-processes", Kind: "enum", Bin: "e3.test", Test: "TestC03Proc"},
 			{Name: "conformance", Kind: "conform", Scen: "crash_plugin"},
 		},
